@@ -4,6 +4,7 @@ package parser
 // to token.Token. This is an unexported implementation detail used by ParseFromModelTokens.
 
 import (
+	"strings"
 	"sync"
 
 	goerrors "github.com/ajitpratap0/GoSQLX/pkg/errors"
@@ -137,7 +138,13 @@ func (tc *tokenConverter) handleCompoundToken(t models.TokenWithSpan) []token.To
 		}
 	}
 
-	switch t.Token.Value {
+	switch t.Token.Type {
+	case models.TokenTypeString, models.TokenTypeSingleQuotedString, models.TokenTypeDoubleQuotedString,
+		models.TokenTypeDollarQuotedString, models.TokenTypeTripleSingleQuotedString, models.TokenTypeTripleDoubleQuotedString,
+		models.TokenTypeIdentifier, models.TokenTypePlaceholder:
+		return nil
+	}
+	switch strings.ToUpper(t.Token.Value) {
 	case "INNER JOIN":
 		return []token.Token{
 			{Type: models.TokenTypeInner, Literal: "INNER"},
